@@ -18,6 +18,7 @@ EXPLANATION = ("Decided from MIR facts: (R1) Container::new_with_locator chains 
                "Equality of the logical dump across packagings is not decided."
                " (R6) tools::concat copies every pack whole under its own uuid; (R7) the manifest search visits every pack (only exits: next pack, error, Ok(Some(pack at hand))); (R8) locations recorded by BasicCreator::finalize are empty or made relative with diff_utf8_paths."
                ' Added later: (R9) the size declared by a tail header is bounded by reader.size() itself and may equal it. (R10) Container::new looks for other packs next to the path it was given (no canonicalisation). (R1) every locator list built in new_with_locator is the full chain [container, caller\'s locator].')
+EXPLANATION += ' Batch 11: (R11) no type implementing PackLocatorTrait has an interior-mutable field (a locator keeps no memory between two calls).'
 ASSUMPTIONS = ["std::io seek/tell semantics", "HashMap lookup by uuid", "rustc MIR construction and trait resolution"]
 
 CONSTRUCTORS = (r"content_pack::ContentPack::new$", r"directory_pack::DirectoryPack::new$", r"manifest_pack::ManifestPack::new$")
@@ -488,7 +489,26 @@ def r10_packs_are_looked_for_next_to_the_file_given(cx):
           "FsLocator::new receives path.parent() of the path given (from Path::parent: %s), not a resolved path (resolving calls: %s)" % (parent, resolved), ln=fl[0][1].get("ln"))
 
 
+def r11_locators_keep_no_memory(cx):
+    """'a pack is found by its identity in the file at hand and then at its recorded location': `locate(&self, uuid, location)`
+    answers from the files as they are now. A locator with interior-mutable state (a cache keyed by location, by name, a
+    "last answer") can hand the reader of one pack to the request for another: none of the types implementing
+    PackLocatorTrait has a field with interior mutability."""
+    F = cx.F
+    ims = F.impls_of("PackLocatorTrait")
+    if len(ims) < 3:
+        raise AnchorLost("impls of PackLocatorTrait: %d" % len(ims))
+    for im in ims:
+        st = F.struct(re.sub(r"<.*", "", im["self"]))
+        if not st:
+            raise AnchorLost("struct %s" % im["self"])
+        mut = [(fl["name"], fl["ty"]) for fl in st["fields"] if re.search(r"\b(Mutex|RwLock|RefCell|Cell|OnceLock|OnceCell|LazyLock|LazyCell|Atomic\w+|UnsafeCell|DashMap|LruCache)\b", fl["ty"])]
+        cx.ob("R11", "R11/%s/keeps-no-memory" % im["self"].split("::")[-1], not mut, "%s:%s (struct %s)" % (im["file"], im["line"], im["self"]),
+              "%s can remember nothing between two calls of locate(&self, ..): fields with interior mutability: %s" % (im["self"].split("::")[-1], mut or "none"))
+
+
 RULES = [
+    ("R11", r11_locators_keep_no_memory, 3),
     ("R10", r10_packs_are_looked_for_next_to_the_file_given, 1),
     ("R9", r9_tail_pack_may_fill_the_file, 1),
     ("R8", r8_recorded_locations_are_relative, 3),
